@@ -13,8 +13,17 @@ trap 'rm -rf "$S"' EXIT
 "$VERIF/bin/vinstr" -src "$REPO" -dst "$S" || { echo "BUILD-ERROR instrumentation failed"; exit 2; }
 cp -r "$VERIF/engine/zverif" "$S/zverif"
 (cd "$S" && go build -o "$S/vcheck" ./zverif/cmd/vcheck) 2> "$S/build.log" || { echo "BUILD-ERROR (instrumented build failed)"; head -50 "$S/build.log"; exit 2; }
+EXTRA=()
+if [ "$ID" = "C13" ]; then
+  # uninstrumented -race build of the free-running driver
+  R="$S/plain"; mkdir -p "$R"
+  "$VERIF/bin/vinstr" -plain -src "$REPO" -dst "$R" || { echo "BUILD-ERROR plain copy failed"; exit 2; }
+  mkdir -p "$R/zverif/cmd" && cp -r "$VERIF/engine/zverif/cmd/c13run" "$R/zverif/cmd/"
+  (cd "$R" && CGO_ENABLED=1 go build -race -o "$S/c13run" ./zverif/cmd/c13run) 2> "$S/build13.log" || { echo "BUILD-ERROR (race build failed)"; head -30 "$S/build13.log"; exit 2; }
+  EXTRA=(-x "racebin=$S/c13run")
+fi
 if [ "$TIER" = "replay" ]; then
   "$S/vcheck" -id "$ID" -replay "$1" -verif "$VERIF" -repo "$REPO" -scratch "$S"
   exit $?
 fi
-"$S/vcheck" -id "$ID" -tier "$TIER" -seed "${VERIF_SEED:-0}" -verif "$VERIF" -repo "$REPO" -scratch "$S" "$@"
+"$S/vcheck" -id "$ID" -tier "$TIER" -seed "${VERIF_SEED:-0}" -verif "$VERIF" -repo "$REPO" -scratch "$S" "${EXTRA[@]}" "$@"
